@@ -96,7 +96,7 @@ def _run_all_locked(tier, cdir, verify_file, out, timeout, keep):
                 part[f + ":<module>"] = {"vcs": [], "unsupported": f"source does not parse: {e}", "seconds": 0.0, "fhash": "syntax-error"}
                 res = {}
             for name, d in res.items():
-                part[name] = {"unsupported": d["unsupported"], "seconds": d["seconds"], "fhash": function_hash(src, name.split(":")[1]), "renamed": d.get("renamed"),
+                part[name] = {"unsupported": d["unsupported"], "seconds": d["seconds"], "fhash": function_hash(src, name.split(":")[1]), "renamed": d.get("renamed"), "assumptions": d.get("assumptions", []),
                               "vcs": [{"id": v.id, "kind": v.kind, "desc": v.desc, "status": v.status, "seconds": v.seconds,
                                        "backend": v.backend, "model": v.model, "lineno": v.lineno} for v in d["vcs"]]}
             pickle.dump(part, open(cpath + ".tmp", "wb"))
@@ -141,6 +141,10 @@ def file_into(rep: Report, prop: str, tier: str, kinds=None, only=None, all_cont
         if d is None:
             rep.undecided(f"{prop}.E1.{short}", "contract", f"verify {short}", "pyvc", "no result (file failed to load)", function=name)
             continue
+        for a in d.get("assumptions") or []:
+            rep.assume(f"{short}: {a}")
+        if c.inline:
+            rep.notes.append(f"{short}: the module-level helpers {', '.join(c.inline)} have no contract of their own: their REAL bodies are executed at the call sites inside this function")
         if d.get("renamed"):
             rep.notes.append(f"{short}: binders were renamed since the baseline ({d['renamed']}); the sidecar contract was re-written accordingly (same statement shape)")
         if d["unsupported"]:
